@@ -200,7 +200,8 @@ func mstep(ttl int64, s *mstate, e event) (string, bool) {
 // mirrorCheck replays the ordered events; code 0 = accepted and the lease was in force
 // at every instant at which the holder was alive; otherwise the index of the first
 // failing event, the code of Run_C05.go (1 time runs backwards, 2 label not enabled,
-// 3 other result, 4 lease not in force, 5 death scenario without acquisition) and a text
+// 3 other result, 4 lease not in force, 5 death scenario without acquisition; 6 = 2 for a
+// renewal label of a chain that had ended after Unlock) and a text
 func mirrorCheck(ttl int64, evs []event, needAcq bool) (int, int, string) {
 	s := &mstate{nextv: 1}
 	dead, acq := false, false
@@ -214,6 +215,9 @@ func mirrorCheck(ttl int64, evs []event, needAcq bool) (int, int, string) {
 		}
 		before := *s
 		r, ok := mstep(ttl, s, e)
+		if !ok && (e.kind == kTimerFire || e.kind == kStCas) && before.tst == tDone && before.hs == hUnlocked {
+			return idx, 6, fmt.Sprintf("event %d at %.3f ms: %s, but the renewal chain of this tenure had ended (its call after Unlock was answered NotExist/Conflict): a second renewal call of a finished tenure, not a trace of the model", idx, float64(e.t)/1e6, coqLabel(e))
+		}
 		if !ok {
 			return idx, 2, fmt.Sprintf("event %d at %.3f ms: %s is not possible in the model (holder state %d, chain state %d)", idx, float64(e.t)/1e6, coqLabel(e), before.hs, before.tst)
 		}
